@@ -149,8 +149,24 @@ pub fn run_config(id: &str, c: &Value) -> Value {
                 let lx = Ipv6Extensions::from_slice_lax(IpNumber(first), &b);
                 let lax = lx.0 == d && lx.1 == n && lx.2.len() == rest.len() && lx.3.is_none();
                 let sl = Ipv6ExtensionsSlice::from_slice(IpNumber(first), &b).map(|(x, m, r)| m == n && r.len() == rest.len() && x.slice().len() == b.len() - rest.len()).unwrap_or(false);
+                // ... and the decoders of the complete IP packet (IPv6 header in front): IpHeaders::from_slice / read, IpSlice::to_header,
+                // the header view's try_to_header, the lax variants
+                let mut pkt = Ipv6Header { traffic_class: 0, flow_label: Ipv6FlowLabel::ZERO, payload_length: b.len() as u16, next_header: IpNumber(first), hop_limit: 4,
+                                           source: [1; 16], destination: [2; 16] }.to_bytes().to_vec();
+                let h6 = Ipv6Header::from_slice(&pkt).unwrap().0;
+                pkt.extend(&b);
+                let want = IpHeaders::Ipv6(h6, d.clone());
+                let plen = rest.len();
+                let ihs = IpHeaders::from_slice(&pkt).map(|(x, p)| x == want && p.ip_number == n && p.payload.len() == plen).unwrap_or(false);
+                let mut pc = std::io::Cursor::new(&pkt[..]);
+                let ihr = IpHeaders::read(&mut pc).map(|(x, m)| x == want && m == n && pc.position() as usize == pkt.len() - plen).unwrap_or(false);
+                let ips = IpSlice::from_slice(&pkt).map(|x| x.to_header() == want && x.header().try_to_header().map(|y| y == want).unwrap_or(false)
+                                                        && x.payload().ip_number == n && x.payload().payload.len() == plen).unwrap_or(false);
+                let ihl = IpHeaders::from_slice_lax(&pkt).map(|(x, p, stop)| x == want && p.ip_number == n && p.payload.len() == plen && stop.is_none()).unwrap_or(false);
+                let ipl = LaxIpSlice::from_slice(&pkt).map(|(x, stop)| x.payload().ip_number == n && x.payload().payload.len() == plen && stop.is_none()).unwrap_or(false);
+                let f = |x: bool| if x { 1 } else { 0 };
                 json!({"k": "ok", "links": links(&d), "lens": lens(&d), "final": n.0, "rest": rest.len(), "same": if d == e { 1 } else { 0 },
-                       "doors": [if rd { 1 } else { 0 }, if rl { 1 } else { 0 }, if lax { 1 } else { 0 }, if sl { 1 } else { 0 }]})
+                       "doors": [f(rd), f(rl), f(lax), f(sl), f(ihs), f(ihr), f(ips), f(ihl), f(ipl)]})
             }
             Err(x) => json!({"k": "err", "links": links(&Ipv6Extensions::default()), "lens": lens(&Ipv6Extensions::default()), "final": -1, "rest": -1, "same": 0, "doors": [], "msg": format!("{:?}", x)}),
         }))
